@@ -6,6 +6,6 @@ THEOREMS = ["C07_all_decoders", "C07_bits_is_le_slice", "C07_bits_outside"]
 
 def run(res, args):
     res.assumptions = ["the published layout is the table in the comment above each record struct, read with the rules of DESIGN.md section 6 (coq/Ble/Layout.v)",
-                       "float64 rounding is not modelled: decimal literals are the real numbers they denote, results are compared within 1e-9*max(1,|q|)"]
+                       "the refinement theorems read the translated decoders over exact rationals (decimal literals are the real numbers they denote; results compared within 1e-9*max(1,|q|)); the SAME generated text is also read in IEEE-754 binary64 (Ble/GoSemF.v, Flocq) and compared bit for bit with the implementation on a seventh of the cases"]
     ble.standard(res, args, "C07", THEOREMS, "")
-    res.partial.append("IEEE-754 rounding of the unit conversion is not modelled")
+    res.partial.append("IEEE-754 rounding of the unit conversion: modelled for execution (bit-exact comparison), the refinement theorems are over exact rationals")
